@@ -118,7 +118,7 @@ PROPS["C10"] = {
     "witness_always": ["tfm_files"],
     # C10 judges the panics and the readability of what PL -> TFM writes; what the round trip preserves is C11's
     "witness_fns": {"tfm_files": ["tfm_to_pl", "pl_to_tfm", "round_trip_panic", "pack_entrypoints_panic"]},
-    "witness_bound": {"tfm_files": "whole files through the real tftopl / pltotf algorithms: 8000 (thorough: 60000) generated .tfm files (half well-formed: small section sizes or - one in 40 - 255 characters with every dimension table filled to its limit, lig/kern programs, lists, extensible recipes, headers of 2..296 words with CODINGSCHEME / FAMILY strings of every length up to the full 39 / 19 characters and every face byte; half noisy / truncated / bit-flipped, headers up to 309 words) and ~5 property-list texts per file (the printed list, a truncation, a one-character mutation, a number replaced by one beyond every limit or a character beyond Latin-1, one of 19 appended properties: labels without instructions, skips past the end, header / parameter numbers at their limits, over-long strings ...); every .tfm written for any of these texts must be accepted by the TFM reader; 352 texts with dimensions / parameters / kerns / design size at the ends of the fix_word range and tables beyond their limits spanning the whole range; a font of more than 32767 words and 100000 nested parentheses (both known findings; the second in a child process); separately LIGTABLEs of 32508..66000 instructions and 254..256 characters each with its own label (up to 256 entry-point redirections, with and without a boundary character); C10: no panic in either direction; C11: every warning-free file converts to a canonical file on which a further round trip is the byte-for-byte identity without warnings and which describes the same font (PL equal up to header defaults and unreachable lig/kern instructions; per character the VALUES of width/height/depth/italic, the next-larger link and the extensible recipe, and the parameters, read back from the original and from the canonical bytes, are equal; the header - checksum, design size, extra words, and CODINGSCHEME / FAMILY / FACE as this driver reads them off the ORIGINAL BYTES itself - is the same in the canonical file); lig/kern programs of 200..520 instructions (at, just below and above 255/256), with and without a boundary character, labels at the ends, around 255/256 and at random positions (120 property lists): every label still points at ITS instruction after PL -> TFM -> PL, no warnings, canonical fixed point"},
+    "witness_bound": {"tfm_files": "whole files through the real tftopl / pltotf algorithms: 8000 (thorough: 60000) generated .tfm files (half well-formed: small section sizes or - one in 40 - 255 characters with every dimension table filled to its limit, lig/kern programs, lists, extensible recipes, headers of 2..296 words with CODINGSCHEME / FAMILY strings of every length up to the full 39 / 19 characters and every face byte, a SEVENBITSAFEFLAG claim in a third of them, zero and non-zero extra header words; one in 5 spreads 10-20 characters over 60-120 codes so that 7-bit and 8-bit characters meet in lig/kern steps, links and recipes; half noisy / truncated / bit-flipped, headers up to 309 words) and ~5 property-list texts per file (the printed list, a truncation, a one-character mutation, a number replaced by one beyond every limit or a character beyond Latin-1, one of 19 appended properties: labels without instructions, skips past the end, header / parameter numbers at their limits, over-long strings ...); every .tfm written for any of these texts must be accepted by the TFM reader; 352 texts with dimensions / parameters / kerns / design size at the ends of the fix_word range and tables beyond their limits spanning the whole range; a font of more than 32767 words and 100000 nested parentheses (both known findings; the second in a child process); separately LIGTABLEs of 32508..66000 instructions and 254..256 characters each with its own label (up to 256 entry-point redirections, with and without a boundary character); C10: no panic in either direction; C11: every warning-free file converts to a canonical file on which a further round trip is the byte-for-byte identity without warnings and which describes the same font (PL equal up to header defaults and unreachable lig/kern instructions; per character the VALUES of width/height/depth/italic, the next-larger link and the extensible recipe, and the parameters, read back from the original and from the canonical bytes, are equal; the header - checksum, design size, extra words, and CODINGSCHEME / FAMILY / FACE as this driver reads them off the ORIGINAL BYTES itself - is the same in the canonical file); lig/kern programs of 200..520 instructions (at, just below and above 255/256), with and without a boundary character, labels at the ends, around 255/256 and at random positions (120 property lists): every label still points at ITS instruction after PL -> TFM -> PL, no warnings, canonical fixed point"},
     "unverified_callers": [
         "validate_and_fix (480 lines over HashMap<Char,..>), from_raw_file iterator glue, Header::deserialize string handling",
         "the whole PL text side: pl/cst.rs, pl/ast.rs, From<pl::File> for File, serialize_char_infos - 'arbitrary text never panics' and 'PL->TFM output is a readable TFM' are NOT decided",
@@ -132,7 +132,7 @@ PROPS["C11"] = {
     "witness_always": ["tfm_files"],
     # C11 judges what the round trip preserves (and panics on that path); the other panics and the readability of PL -> TFM output are C10's
     "witness_fns": {"tfm_files": ["round_trip", "round_trip_panic", "pack_entrypoints", "pack_entrypoints_panic"]},
-    "witness_bound": {"tfm_files": "whole files through the real tftopl / pltotf algorithms: 8000 (thorough: 60000) generated .tfm files (half well-formed: small section sizes or - one in 40 - 255 characters with every dimension table filled to its limit, lig/kern programs, lists, extensible recipes, headers of 2..296 words with CODINGSCHEME / FAMILY strings of every length up to the full 39 / 19 characters and every face byte; half noisy / truncated / bit-flipped, headers up to 309 words) and ~5 property-list texts per file (the printed list, a truncation, a one-character mutation, a number replaced by one beyond every limit or a character beyond Latin-1, one of 19 appended properties: labels without instructions, skips past the end, header / parameter numbers at their limits, over-long strings ...); every .tfm written for any of these texts must be accepted by the TFM reader; 352 texts with dimensions / parameters / kerns / design size at the ends of the fix_word range and tables beyond their limits spanning the whole range; a font of more than 32767 words and 100000 nested parentheses (both known findings; the second in a child process); separately LIGTABLEs of 32508..66000 instructions and 254..256 characters each with its own label (up to 256 entry-point redirections, with and without a boundary character); C10: no panic in either direction; C11: every warning-free file converts to a canonical file on which a further round trip is the byte-for-byte identity without warnings and which describes the same font (PL equal up to header defaults and unreachable lig/kern instructions; per character the VALUES of width/height/depth/italic, the next-larger link and the extensible recipe, and the parameters, read back from the original and from the canonical bytes, are equal; the header - checksum, design size, extra words, and CODINGSCHEME / FAMILY / FACE as this driver reads them off the ORIGINAL BYTES itself - is the same in the canonical file); lig/kern programs of 200..520 instructions (at, just below and above 255/256), with and without a boundary character, labels at the ends, around 255/256 and at random positions (120 property lists): every label still points at ITS instruction after PL -> TFM -> PL, no warnings, canonical fixed point"},
+    "witness_bound": {"tfm_files": "whole files through the real tftopl / pltotf algorithms: 8000 (thorough: 60000) generated .tfm files (half well-formed: small section sizes or - one in 40 - 255 characters with every dimension table filled to its limit, lig/kern programs, lists, extensible recipes, headers of 2..296 words with CODINGSCHEME / FAMILY strings of every length up to the full 39 / 19 characters and every face byte, a SEVENBITSAFEFLAG claim in a third of them, zero and non-zero extra header words; one in 5 spreads 10-20 characters over 60-120 codes so that 7-bit and 8-bit characters meet in lig/kern steps, links and recipes; half noisy / truncated / bit-flipped, headers up to 309 words) and ~5 property-list texts per file (the printed list, a truncation, a one-character mutation, a number replaced by one beyond every limit or a character beyond Latin-1, one of 19 appended properties: labels without instructions, skips past the end, header / parameter numbers at their limits, over-long strings ...); every .tfm written for any of these texts must be accepted by the TFM reader; 352 texts with dimensions / parameters / kerns / design size at the ends of the fix_word range and tables beyond their limits spanning the whole range; a font of more than 32767 words and 100000 nested parentheses (both known findings; the second in a child process); separately LIGTABLEs of 32508..66000 instructions and 254..256 characters each with its own label (up to 256 entry-point redirections, with and without a boundary character); C10: no panic in either direction; C11: every warning-free file converts to a canonical file on which a further round trip is the byte-for-byte identity without warnings and which describes the same font (PL equal up to header defaults and unreachable lig/kern instructions; per character the VALUES of width/height/depth/italic, the next-larger link and the extensible recipe, and the parameters, read back from the original and from the canonical bytes, are equal; the header - checksum, design size, extra words, and CODINGSCHEME / FAMILY / FACE as this driver reads them off the ORIGINAL BYTES itself - is the same in the canonical file); lig/kern programs of 200..520 instructions (at, just below and above 255/256), with and without a boundary character, labels at the ends, around 255/256 and at random positions (120 property lists): every label still points at ITS instruction after PL -> TFM -> PL, no warnings, canonical fixed point"},
     "unverified_callers": [
         "WORD LEVEL ONLY: pl::File::display / from_pl_source_code (text), From<pl::File> for File and back, pack_entrypoints/unpack_entrypoint, table compression - the composition to a byte-for-byte fixed point is NOT decided",
     ],
